@@ -25,6 +25,15 @@ fn main() {
     }
     match wl.as_str() {
         "C01" | "C05" | "C06" | "C10" | "C13" | "C15" => vcore::props::sessions::run(&wl, &args, &mut rep),
+        "C02-direct" => vcore::props::c02::run_direct(&args, &mut rep),
+        "C02-cli" => vcore::props::c02::run_cli(&args, &mut rep),
+        "C02-accept" => vcore::props::c02::run_accept(&args, &mut rep),
+        "C07-direct" => vcore::props::c07::run_direct(&args, &mut rep),
+        "C07-random" => vcore::props::c07::run_random(&args, &mut rep),
+        "C08-direct" => vcore::props::c07::run_c08_direct(&args, &mut rep),
+        "C08-random" => vcore::props::c07::run_c08_random(&args, &mut rep),
+        "C04-direct" => vcore::props::c04::run_direct(&args, &mut rep),
+        "C04-cli" => vcore::props::c04::run_cli(&args, &mut rep),
         other => {
             eprintln!("unknown workload {}", other);
             std::process::exit(2);
